@@ -35,6 +35,7 @@ ASSUMPTIONS = [
 MIN_NONTRIVIAL = {'quick': 4000, 'thorough': 100000}
 REQUIRED_MONITORS = ['segment', 'all-colons', 'no-colons:cautious',
                      'no-colons:required', 'keyword-channel', 'sec_within',
+                     'config-object-channel',
                      'hook:segment',
                      'hook:rebuild_sec_within', 'hook:findall_matching_sec',
                      'variant:blank-before-colon', 'variant:no-connector',
@@ -129,6 +130,25 @@ def check_modes(case, ctx, rec, pytrs):
                 f"{short(nocol, 120)!r}: sections pulled without colon but no "
                 f"pulled_sec_without_colon warning (w_flags {c.w_flags})",
                 dedup=layout)
+        # The modes requested through a Config object built from keyword
+        # arguments / a dict rather than from text.
+        ctx.hit('config-object-channel')
+        for mode, ref in (('sec_colon_cautious', c), ('segment', None),
+                          ('sec_colon_required', None)):
+            src = nocol if mode != 'segment' else txt
+            if ref is None:
+                ref = pytrs.PLSSDesc(src, config=mode)
+            maker = (pytrs.Config.from_kwargs if len(src) % 2
+                     else lambda **kw: pytrs.Config.from_dict(kw))
+            o = pytrs.PLSSDesc(src, config=maker(**{mode: True}))
+            if tr(o) != tr(ref) or sorted(map(str, o.w_flags)) != \
+                    sorted(map(str, ref.w_flags)):
+                ctx.violation(
+                    'mode-config-object-differs-from-config-text', case,
+                    f"Config object with {mode}=True on {short(src, 100)!r}: "
+                    f"{tr(o)} flags {o.w_flags} vs config text {tr(ref)} "
+                    f"flags {ref.w_flags}", dedup=f"cfgobj|{mode}")
+                break
         # The same two modes requested through parse() keywords.
         ctx.hit('keyword-channel')
         k = pytrs.PLSSDesc(nocol)
@@ -217,7 +237,7 @@ def gen_sec_within(rng):
     return {'sec_within': True, 'text': txt, 'expected': exp, 'trail': trail,
             'place': place, 'multi': len(nums) > 1,
             'channel': rng.choice(['config', 'config', 'keyword',
-                                   'keyword-nocommit'])}
+                                   'keyword-nocommit', 'config-object'])}
 
 
 def check_sec_within(case, ctx, rec, pytrs):
@@ -238,6 +258,9 @@ def check_sec_within(case, ctx, rec, pytrs):
             ctx.hit('sec_within:nocommit')
             d = pytrs.PLSSDesc(txt, wait_to_parse=True)
             tracts = list(d.parse(sec_within=True, commit=False))
+        elif case.get('channel') == 'config-object':
+            d = pytrs.PLSSDesc(
+                txt, config=pytrs.Config.from_kwargs(sec_within=True))
         else:
             d = pytrs.PLSSDesc(txt, config='sec_within')
         sw = rec.of('sec_within')
